@@ -15,7 +15,7 @@ for p in "$@"; do
 done
 git -C /repo checkout -- .
 # the checks regenerate lean/EoNVerif/Gen/*.lean from /repo: bring them back to the clean tree
-for t in py2lean py2lean_loops pyclass2lean pyfunc2lean pyevent2lean pyinit2lean pyinvest2lean pysimple2lean pydisc2lean pyperc2lean pyargs2lean pyfsir2lean pyglue2lean pyhelp2lean pymat2lean pywrap2lean pyglue3lean pypm2lean; do /venv/bin/python /verif/harness/$t.py >/dev/null 2>&1; done
+for t in py2lean py2lean_loops pyclass2lean pyfunc2lean pyevent2lean pyinit2lean pyinvest2lean pysimple2lean pydisc2lean pyperc2lean pyargs2lean pyfsir2lean pyglue2lean pyhelp2lean pymat2lean pywrap2lean pyglue3lean pypm2lean pysi2lean; do /venv/bin/python /verif/harness/$t.py >/dev/null 2>&1; done
 git -C /repo diff --quiet && echo "== repo restored"
 # evidence files written while the mutant was applied describe the mutated tree: bring back the committed ones
 git -C /verif checkout -- evidence 2>/dev/null
